@@ -251,7 +251,7 @@ EXTRA = {
            'MixedLogReader sequentially and by index entry).',
     'C04': 'Data is handed over in nine forms (bytes, fresh / re-used / wiped bytearray, memoryviews, a recv_into-style view) with the '
            'caller\'s objects compared after every call; add_callback histories while the decoder is in use (typed and catch-all, '
-           'between calls and from inside a callback).',
+           'between calls and from inside a callback; theorem C04_late_observer).',
     'C08': 'Messages of every registered class in every P1-time configuration; the time column is also judged against the wire '
            'bytes by a hand-written per-type table.',
     'C09': 'Every library writer of .p1i files (reader, fast indexer, FileIndexBuilder, extraction in four output forms, locate_log, '
